@@ -16,6 +16,22 @@ P = {
  'C02': ('Theorems for all N: rotate = identity on commuting / i*P*G on anticommuting operands, conjugation identities G P G = +-P (the group-algebra content '
          'of U^dagger P U), multiplicativity, inverse by -G, period 4, masked = lifted generator, outside untouched; formula regenerated from source.',
          'Coq proof + regenerated phase formula + correspondence (np, torch) with dense U^dagger P U oracle', '5/C02'),
+ 'C03': ('Theorems for all N and all valid maps: identity to identity, generators to the listed images, products to products with the exact phase (transform_hom), commutation/Hermiticity/'
+         'squares preserved, phases pulled out, masked map = embedded map, rotation map acts as the rotation. PARTIAL: existence of the implementing unitary is the cited textbook theorem; '
+         'proved is the centre-fixing automorphism property.',
+         'Coq proof (homomorphism lemma by induction over rows, only associativity and pairwise (anti)commutation) + correspondence with dense ordered-product oracle', '5/C03'),
+ 'C04': ('Theorems for all N: compose acts as first-then-second, is associative and closed, identity neutral; the inverse exists for every valid map, is valid and two-sided; inverse of a '
+         'composition; z2inv as implemented (partial-row Gauss-Jordan) is a two-sided GF(2) inverse and rejects only singular input.',
+         'Coq proof (Gauss-Jordan invariants, symplectic right inverse, group axioms) + correspondence exhaustive on 24x24 one-qubit pairs and all 2x2/3x3 matrices', '5/C04'),
+ 'C09': ('Theorems for EVERY gate program: the layered circuit built by take (sliding through non-overlapping layers) acts as the gates applied one at a time; compose = concatenation; '
+         'layer- and circuit-compilation preserve the action; disjoint gates commute; gates are local.',
+         'Coq proof (abstract masked-kernel commutation, induction over the layer list) + correspondence over configurations {uncompiled, layer-compiled, circuit-compiled} x {CliffordCircuit, Circuit} x {original, copy, halves}', '5/C09'),
+ 'C10': ('Theorems for every program of proper gates: backward after forward and forward after backward return every well-formed list, for gates, layers, circuits; the compiled backward '
+         'map is the inverse of the compiled forward map and both orders round-trip; circuits built by take satisfy the layer invariant.',
+         'Coq proof + correspondence (Pauli lists with all phases, signed mixed states, both orders, compiled and uncompiled)', '5/C10'),
+ 'C11': ('Finite statements decided by computation over tables regenerated from circuit.py on every run: H,S,X,Y,Z,CNOT (both orientations) equal the textbook conjugation tables, are valid with '
+         'two-sided inverses; the 24 C(k) are valid, pairwise different (276 pairs), closed under compose (576) and inverse (24); bad indices / arities rejected. Placement anywhere is C03 (embed).',
+         'vm_compute over the complete finite domain (tables regenerated from source) + correspondence with the textbook 2x2/4x4 unitaries for all placements N<=3', '5/C11'),
  'C20': ('Theorems for all N and all four phases: parse(repr P) = P, parse(tokenize P) = P, letters/codes/dict/prefix forms agree; dispatch, repr and token '
          'tables regenerated from source every run; indexing laws; correspondence np+torch exhaustive N<=3.',
          'Coq proof (loop invariant of pauli()) over regenerated dispatch tables + correspondence', '5/C20'),
